@@ -390,13 +390,16 @@ def programs(tier):
   from vk import defspace
   ps = [(progspace.pid(s), s) for s in c05.DEFS]
   ps += import_programs()
-  ps += [(i, s) for i, s in defspace.programs(tier)
+  ps += [(i, s) for i, s in defspace.programs("quick")
          if tier != "quick" or i.startswith(("alone:", "cls:", "flow:assign<-", "flow:initattr<-", "flow:outside<-", "flow:default<-"))]
+  if tier != "quick":
+    have = {i for i, _ in ps}
+    ps += [(i, s) for i, s in defspace.class_shapes("thorough") if i not in have][::2]
   if tier == "quick":
     ps += [(i, src) for i, src, _ in progspace.programs("smoke")]
     ps += [(i, src) for i, src, _ in progspace.programs("quick")[100::25]]
   else:
-    ps += [(i, src) for i, src, _ in progspace.programs("quick")[::3]]   # every third PS-core program (4 analyses each)
+    ps += [(i, src) for i, src, _ in progspace.programs("quick")[::12]]   # every twelfth PS-core program (4 analyses each)
   return ps
 
 
